@@ -6,7 +6,7 @@ LEVEL = 'exploration'
 TIMEOUT_S = 900
 RULE = ('n_v in {4,5 (one and two cells of the uniform cubic v spline),6,7,10} x process grids (ranks whose block does not start at r-index 0 or z-index 0) x real / complex density storage x spline path of the '
         'v basis; f = unit impulse along v at every (r,theta,z) position class of the block, the equilibrium, a dense field; getPerturbedRho and getRho, each '
-        'called on a density grid pre-filled with NaN+NaN*j poison and called twice; oracle = exact-rational quadrature weights of the v interpolant '
+        'called on a density grid pre-filled with NaN+NaN*j poison and called twice (two finders), plus a third finder built for another equilibrium on the same grids; oracle = exact-rational quadrature weights of the v interpolant '
         '(pgv.refspline) and an independently coded closed-form equilibrium at the point\'s *global* radius; equilibrium f gives exactly 0; an evaluation is '
         'one density call on one rank; non-trivial = rank whose radial block starts at index > 0, or complex storage')
 ASSUMPTIONS = ['pgv.refspline exact weights', 'tolerance 64*eps*||A^-1||*(d+1)*(vMax-vMin)*max|f| per point', 'simmpi layouts']
@@ -59,6 +59,12 @@ def run_case(case):
         # several finders on the same v basis (e.g. one per species): building a second one must not disturb the first
         dens_first = DensityFinder(6, f.getSpline(3), eta, c)
         dens = DensityFinder(6, f.getSpline(3), eta, c)
+        # ... and one for another equilibrium on the same grids (another species: other temperature and density profiles), built after
+        # the two above and before any of them is used; each finder subtracts its OWN equilibrium
+        import copy
+        c_other = copy.copy(c)
+        c_other.CTi, c_other.kTi, c_other.kN0, c_other.CN0 = 1.37 * c.CTi, 0.6 * c.kTi, 1.7 * c.kN0, 0.8 * c.CN0
+        dens_other = DensityFinder(6, f.getSpline(3), eta, c_other)
         S = refspline.RefSpace(f.getSpline(3))
         w = np.array([float(x) for x in S.weights_exact()])
         cond = S.cond_inf()
@@ -66,6 +72,7 @@ def run_case(case):
         r0 = int(l.starts[0])
         rI = np.arange(r0, int(l.ends[0]))
         feq = np.array([[ops.feq(c, eta[0][i], v) for v in eta[3]] for i in rI])
+        feq_other = np.array([[ops.feq(c_other, eta[0][i], v) for v in eta[3]] for i in rI])
         span = float(eta[3][-1] - eta[3][0])
         poison = complex(np.nan, np.nan) if case['complex'] else np.nan
         feq_field = f.getAllData().copy()
@@ -82,14 +89,16 @@ def run_case(case):
         n_eval = 0
         for name, F in fields:
             f.getAllData()[:] = F
-            for call in (1, 2):
+            for call in (1, 2, 3):
                 for which in ('perturbed', 'full'):
+                    if call == 3 and (which == 'full' or name.startswith('impulse') and not name.endswith(', 0)')):
+                        continue
                     rho.getAllData()[:] = poison
                     n_eval += 1
-                    d_ = dens_first if call == 2 else dens
+                    d_ = dens_first if call == 2 else (dens_other if call == 3 else dens)
                     if which == 'perturbed':
                         d_.getPerturbedRho(f, rho)
-                        want = np.einsum('ijkl,l->ijk', F - feq[:, None, None, :], w)
+                        want = np.einsum('ijkl,l->ijk', F - (feq_other if call == 3 else feq)[:, None, None, :], w)
                     else:
                         d_.getRho(f, rho)
                         want = np.einsum('ijkl,l->ijk', F, w)
@@ -100,7 +109,7 @@ def run_case(case):
                     err = np.abs(got.real - want).max() if not np.isnan(got.real).any() else np.inf
                     if not err <= tol:
                         probs.append(('density-differs:' + which, '%s %s call %d on rank %d (radial block starts at %d): max error %.3g (tol %.3g)' % (name, which, call, r, r0, err, tol)))
-                    if name == 'equilibrium' and which == 'perturbed' and np.abs(got).max() != 0:
+                    if name == 'equilibrium' and which == 'perturbed' and call != 3 and np.abs(got).max() != 0:
                         probs.append(('equilibrium-density-not-zero', 'perturbed density of the equilibrium is %r on rank %d' % (np.abs(got).max(), r)))
         # the same finder applied to a second distribution function that is distributed differently (half of the world, hence
         # another radial block on this rank): nothing a call leaves in the finder may depend on the grid of the previous call
